@@ -57,7 +57,7 @@ Proof.
   intros Hl. rewrite <- N.pow_add_r. replace (l + (52 - l)) with 52 by lia. reflexivity.
 Qed.
 
-Lemma pow_pos l : 0 < 2 ^ l.
+Lemma pow2_pos l : 0 < 2 ^ l.
 Proof. apply N.neq_0_lt_0, N.pow_nonzero. discriminate. Qed.
 
 Lemma pow_le_22 l : l <= 22 -> 2 ^ l <= p2_22.
@@ -146,7 +146,7 @@ Proof.
   destruct (f64_fields s e m Hs He Hm) as (-> & -> & ->). reflexivity.
 Qed.
 
-(* The shape of a widened non-NaN pattern: which float64 fields come out. *)
+(* Round trips on assembled patterns (s, e, m generic, bounded). *)
 Lemma narrow32_widen_make s e m :
   s < 2 -> e < 256 -> m < p2_23 ->
   f32_is_nan (f32_make s e m) = false ->
@@ -246,7 +246,7 @@ Proof.
   intros [= <-].
   assert (Hr : m / q < p) by (apply (div_lt_52 p q); assumption).
   assert (Hm' : p + m / q < p2_23) by (consts; lia).
-  assert (Hp0 : 0 < p) by apply pow_pos.
+  assert (Hp0 : 0 < p) by apply pow2_pos.
   apply Hgen; try lia.
   rewrite f32_widen_make by lia.
   change (0 =? 255) with false. change (0 =? 0) with true. cbv iota.
@@ -591,8 +591,6 @@ Qed.
 (* ------------------------------------------------------------------ *)
 (** * Real-value semantics *)
 
-Definition p2_925 : N := 2 ^ 925.
-
 Theorem f32_widen_sign w :
   w < 2 ^ 32 -> f32_is_nan w = false -> f64_sign (f32_widen w) = f32_sign w.
 Proof. intros Hw Hnan. apply (f32_widen_fields w Hw Hnan). Qed.
@@ -679,11 +677,14 @@ Qed.
 (* The (sign, magnitude) pair determines the float64 pattern: a finite real
    value has exactly one float64 representation (up to the sign of zero,
    which the sign field records). *)
+Lemma Some_inj {A} (a b : A) : Some a = Some b -> a = b.
+Proof. intros H. congruence. Qed.
+
 Lemma log2_normal_mag m k : m < p2_52 -> N.log2 ((p2_52 + m) * 2 ^ k) = 52 + k.
 Proof.
   intros Hm. apply N.log2_unique; [apply N.le_0_l|].
   rewrite N.pow_succ_r', N.pow_add_r. change (2 ^ 52) with p2_52.
-  pose proof (pow_pos k) as Hk. revert Hk. generalize (2 ^ k). intros K HK.
+  pose proof (pow2_pos k) as Hk. revert Hk. generalize (2 ^ k). intros K HK.
   split.
   - apply N.mul_le_mono_r. lia.
   - rewrite N.mul_assoc. apply N.mul_lt_mono_pos_r; [exact HK | lia].
@@ -699,14 +700,15 @@ Proof.
   unfold f64_mag; cbv zeta.
   set (e1 := f64_expo b1) in *. set (m1 := f64_mant b1) in *.
   set (e2 := f64_expo b2) in *. set (m2 := f64_mant b2) in *.
+  clearbody e1 m1 e2 m2.
   intros A B.
   assert (Hbig : forall m k, p2_52 <= (p2_52 + m) * 2 ^ k).
-  { intros m k. pose proof (pow_pos k) as Hk. revert Hk. generalize (2 ^ k). intros K HK. nia. }
+  { intros m k. pose proof (pow2_pos k) as Hk. revert Hk. generalize (2 ^ k). intros K HK. nia. }
   assert (Hem : e1 = e2 /\ m1 = m2).
   { destruct (N.eqb_spec e1 2047); [discriminate A|].
     destruct (N.eqb_spec e2 2047); [discriminate B|].
     destruct (N.eqb_spec e1 0) as [Z1|Z1]; destruct (N.eqb_spec e2 0) as [Z2|Z2];
-      injection A as A; injection B as B.
+      apply Some_inj in A; apply Some_inj in B.
     - split; lia.
     - pose proof (Hbig m2 (e2 - 1)). lia.
     - pose proof (Hbig m1 (e1 - 1)). lia.
